@@ -68,6 +68,19 @@ check("C01",
       "spellings, parsed by the real DecFileParser, and the projected public answers (mother list, number_of_decays, "
       "list_decay_modes, build_decay_chains, print_decay_modes) are judged clause by clause by TLC against the specification.",
       DEC_NOTE, "DESIGN.md section 5, C01")
+check("C02",
+      "TLA+ lexical-item model of the grammar's line structure with a table of neutral layout edits (spec/DecSyntax.tla), Sound and "
+      "Tight model-checked with TLC; TLC-emitted edit scripts applied to real texts, metamorphic snapshot comparison",
+      "TLC checks, on two base texts and every sequence of <= 2 (thorough: 3) allowed edits (blanks, blank lines, comment lines, "
+      "trailing comments, wrapped option lists, commas, repeated semicolons, CRLF), that the automaton of the grammar accepts the "
+      "edited text with the same meaning (Sound) and that a line end where the table forbids it breaks the text (Tight). Every "
+      "emitted script (quick: a window) is applied at item level to the rendered text, packaged at random (string; file(s) with "
+      "BOM, split at line boundaries, per-file End, missing final line end, CRLF) and parsed by the real code; random compositions "
+      "of the same edits (12 000 option-list sites from Lark's token offsets) are applied to both master files and every "
+      "tests/data file; the snapshot of every public query must be identical.",
+      "Trusts TLC, harness/c02.py (text-level application of the edits) and Lark's recorded token offsets (placement only). "
+      "Domain: wrapped continuation lines do not start with 'End'; '' and [] both denote an absent parameter list.",
+      "DESIGN.md section 5, C02")
 check("C03",
       "TLA+ semantics of CDecay / ChargeConj (spec/DecParse.tla P_Conj, ConjOf) model-checked with TLC; files parsed three "
       "ways by the real code and validated by TLC (spec/DecTrace.tla JudgeC03)",
